@@ -23,7 +23,8 @@
 (***************************************************************************)
 EXTENDS Engine, Json, IOUtils
 
-Sessions == JsonDeserialize(IOEnv.TRACE_FILE)
+\* the file is parsed ONCE: S is bound to the parsed value by enumerating a singleton
+AllSessions == UNION {{S[i] : i \in 1..Len(S)} : S \in {JsonDeserialize(IOEnv.TRACE_FILE)}}
 
 VARIABLES ses, l, verdict
 tvars == <<evars, ses, l, verdict>>
@@ -112,7 +113,7 @@ Diagnose ==
     [] OTHER        -> "unknown_event"
 
 TInit == /\ EInit
-         /\ ses \in SeqSet(Sessions)
+         /\ ses \in AllSessions
          /\ l = 1 /\ verdict = "running"
 
 TReject == /\ More /\ verdict = "running" /\ ~ENABLED TConsume
